@@ -8,6 +8,7 @@ import (
 	"unicode/utf16"
 
 	"verif/internal/tsgu"
+	"verif/shim/vsched"
 )
 
 // C03 — the host dialled is exactly the host that was requested and authorized.
@@ -139,7 +140,7 @@ func refAllowed(mode string, token bool, tokenHost string, hosts []string, user 
 func c03(env *Env, rep *Report) {
 	rep.Rule = "product of host-selection modes {any, signed, roundrobin, unsigned, \"\", bogus} x token auth {off, on with token host = each candidate} x 4 host lists (plain, with user placeholder, IPv6 literal, entry without port) x users {\"\", alice, bob, alice-host} x ~90 channel requests derived from every list entry " +
 		"(exact, without terminator, ports +-1/0/65535, name carrying :port, one/two/embedded NULs, every proper prefix, one-character extensions and prefixes, suffixes, superstring, upper case, another user's substituted entry, bracketed / IPv6 / zone forms, surrogate pairs, lone surrogates, odd length, length field shorter/longer/0xFFFF/0, resource counts 0/2, alternates 1). " +
-		"Each case is one execution of the real Processor with the real security.CheckSession/CheckHost wired as main.go does, all dials observed by the network shim. Oracle: reference policy over an independent UTF-16 decoding; allowed well-formed request => exactly one dial to JoinHostPort(name,port) and status 0; refused => E_PROXY_RAP_ACCESSDENIED, zero dials to any address; malformed => dials only to allowed addresses. distinct_nontrivial = distinct cases."
+		"Plus two-user histories (user A then user B, 5 tunnels one after the other on the same gateway process, list and token modes): a user must still reach its own substituted entry and never another user's. Each case is one execution of the real Processor with the real security.CheckSession/CheckHost wired as main.go does, all dials observed by the network shim. Oracle: reference policy over an independent UTF-16 decoding; allowed well-formed request => exactly one dial to JoinHostPort(name,port) and status 0; refused => E_PROXY_RAP_ACCESSDENIED, zero dials to any address; malformed => dials only to allowed addresses. distinct_nontrivial = distinct cases."
 	rep.Assumptions = append(rep.Assumptions,
 		"host names are compared byte-exact; a letter-case variant of an allowed name is classified unspecified and not judged",
 		"cookie acceptance is simulated by the table checker which sets token host / user exactly as security.CheckPAACookie does (C02 covers the JWT path)",
@@ -161,7 +162,7 @@ func c03(env *Env, rep *Report) {
 		req    c03Req
 	}
 	exec := func(c cse) (verdict, detail, obs string) {
-		g := GwCfg{TokenAuth: c.token, HostSelection: c.mode, Hosts: c.hosts, VerifyIP: true}
+		g := GwCfg{TokenAuth: c.token, HostSelection: c.mode, Hosts: append([]string{}, c.hosts...), VerifyIP: true}
 		if c.token {
 			g.CookieCheck = TableCookie
 		}
@@ -312,6 +313,87 @@ func c03(env *Env, rep *Report) {
 			}
 		}
 	}
+	// histories: two users one after the other on the same gateway process and
+	// configuration (nothing is re-initialised in between): what the first user did
+	// must not change what the second may reach
+	for _, mode := range []string{"roundrobin", "unsigned"} {
+		for _, token := range []bool{false, true} {
+			for _, u1 := range []string{"alice", "bob"} {
+				for _, u2 := range []string{"alice", "bob", "carol"} {
+					n++
+					if !env.mine(n) {
+						continue
+					}
+					distinct++
+					v, d := c03TwoUsers(mode, token, u1, u2, rep)
+					rep.outcome(fmt.Sprintf("two-users mode=%s token=%v verdict=%s", mode, token, v))
+					if v != "" {
+						rep.violate("C03/"+v+"/"+mode+"/two-users", fmt.Sprintf("mode=%s token=%v first user %s then user %s: %s", mode, token, u1, u2, d), map[string]any{"noreplay": true})
+					}
+				}
+			}
+		}
+	}
 	rep.add("distinct", int64(distinct))
 	rep.add("states", int64(distinct))
+}
+
+// c03TwoUsers: user u1 opens a channel to its own placeholder entry; then, on the
+// same gateway, user u2 asks for u1's entry (must be refused unless u2 == u1)
+// and for its own entry (must be allowed).
+func c03TwoUsers(mode string, token bool, u1, u2 string, rep *Report) (string, string) {
+	hosts := []string{"plain.example:3389", "my-{{ preferred_username }}-host:3389"}
+	entry := func(u string) string { return "my-" + u + "-host" }
+	var verdict, detail string
+	x := vsched.Run(nil, 40000, false, nil, func() {
+		w := NewWorld()
+		w.Accept = func(string) bool { return true }
+		g := GwCfg{TokenAuth: token, HostSelection: mode, Hosts: append([]string{}, hosts...), VerifyIP: true}
+		if token {
+			g.CookieCheck = TableCookie
+		}
+		gw := NewGateway(g)
+		type ask struct {
+			user, host string
+			allowed    bool
+		}
+		asks := []ask{{u1, entry(u1), true}, {u2, entry(u1), u1 == u2}, {u2, entry(u2), true}, {u1, entry(u2), u1 == u2}, {u1, entry(u1), true}}
+		for i, a := range asks {
+			id := NewIdentity(a.user, "10.0.0.1", "10.0.0.1:50000")
+			pr := StartProcessor(gw, id, "10.0.0.1:50000")
+			c := &TunnelClient{Kind: "proc", Conn: pr.Client}
+			hs, tc := tsgu.Handshake(1, 0, 0, 0), tsgu.TunnelCreate("", false)
+			if token {
+				hs, tc = tsgu.Handshake(1, 0, 0, tsgu.ExtAuthPAA), tsgu.TunnelCreate("ok|"+a.host+":3389|10.0.0.1|"+a.user, true)
+			}
+			before := len(w.Net.Dials)
+			var st uint32 = 0xFFFFFFFF
+			for _, p := range [][]byte{hs, tc, tsgu.TunnelAuth("pc"), tsgu.ChannelCreate(a.host, 3389)} {
+				c.SendSegment(p)
+				vsched.WaitIdle()
+				c.Absorb()
+				for _, pk := range c.NewPackets() {
+					if pk.Type == tsgu.TypeChannelResp {
+						st = tsgu.ParseResp(pk).Status
+					}
+				}
+			}
+			dialled := len(w.Net.Dials) - before
+			c.CloseClient()
+			vsched.WaitIdle()
+			if a.allowed && (st != 0 || dialled != 1) && verdict == "" {
+				verdict, detail = "allowed-host-refused-after-another-user", fmt.Sprintf("request %d: user %s asked for its own entry %s: status %#x dials %d", i, a.user, a.host, st, dialled)
+			}
+			if !a.allowed && (st == 0 || dialled != 0) && verdict == "" {
+				verdict, detail = "other-users-host-reachable-after-another-user", fmt.Sprintf("request %d: user %s asked for %s: status %#x dials %d", i, a.user, a.host, st, dialled)
+			}
+		}
+	})
+	rep.add("executions", 1)
+	rep.add("transitions", int64(x.Steps))
+	for _, p := range x.Panics() {
+		verdict, detail = "panic:"+shortFn(panicSite(p)), p.Value
+	}
+	x.Finish()
+	return verdict, detail
 }
